@@ -37,7 +37,7 @@ pub fn g_input(rng: &mut Rng) -> OneWarpInput {
         out_index.push(Range { start_le: start.to_le(), len_le: (out_edges.len() as u64 - start).to_le() });
     }
     let mut blobs: Vec<u8> = Vec::new();
-    let mut mk_atts = |count: usize, rng: &mut Rng, blobs: &mut Vec<u8>| -> (Vec<Range>, Vec<AttRow>) {
+    let mk_atts = |count: usize, rng: &mut Rng, blobs: &mut Vec<u8>| -> (Vec<Range>, Vec<AttRow>) {
         let mut index = Vec::new();
         let mut atts = Vec::new();
         for _ in 0..count {
@@ -216,7 +216,7 @@ fn dec_envelope(b: &[u8]) -> Dec {
     }
 }
 fn touch_envelope(b: &[u8]) -> Result<(), String> {
-    WscStoreEnvelope::decode(b).map(|v| drop(v)).map_err(|e| label(&e.kind))
+    WscStoreEnvelope::decode(b).map(|_| ()).map_err(|e| label(&e.kind))
 }
 
 // --- WAL segment ------------------------------------------------------------
@@ -291,7 +291,7 @@ pub fn build_segment(rng: &mut Rng) -> Result<(Vec<u8>, Vec<w::WalCommittedTrans
         store.append_transaction(tx.clone()).map_err(|e| format!("append tx {i}: {e}"))?;
         lsn = tx.commit.last_lsn.as_u64() + 1;
         if let Some(f) = tx.frames.last() {
-            prev_frame = f.frame_digest();
+            prev_frame = f.digest();
         }
         prev_commit = tx.commit.commit_digest;
         txs.push(tx);
@@ -320,8 +320,8 @@ fn rt_segment(rng: &mut Rng) -> Rt {
     Rt::ok(b1)
 }
 fn touch_segment(b: &[u8]) -> Result<(), String> {
-    let a = w::recover_wal_segment_bytes(w::WalSegmentId::from_raw(1), b, w::RecoveryAccessMode::ReadOnly).map(|v| drop(v)).map_err(|e| label(&e));
-    let c = w::recover_wal_segment_bytes(w::WalSegmentId::from_raw(1), b, w::RecoveryAccessMode::Writable).map(|v| drop(v)).map_err(|e| label(&e));
+    let a = w::recover_wal_segment_bytes(w::WalSegmentId::from_raw(1), b, w::RecoveryAccessMode::ReadOnly).map(|_| ()).map_err(|e| label(&e));
+    let c = w::recover_wal_segment_bytes(w::WalSegmentId::from_raw(1), b, w::RecoveryAccessMode::Writable).map(|_| ()).map_err(|e| label(&e));
     a.and(c)
 }
 fn dec_segment(b: &[u8]) -> Dec {
@@ -344,6 +344,7 @@ pub fn codecs() -> Vec<Codec> {
             chunks: &[8, 16, 32, 40, 56, 64, 128],
             needs_kernel: false,
             in_c12: true,
+            in_c13: true,
         },
         Codec {
             name: "wsc.store_envelope",
@@ -356,6 +357,7 @@ pub fn codecs() -> Vec<Codec> {
             chunks: &[8, 32],
             needs_kernel: false,
             in_c12: true,
+            in_c13: true,
         },
         Codec {
             name: "wal.segment",
@@ -368,6 +370,7 @@ pub fn codecs() -> Vec<Codec> {
             chunks: &[8, 32],
             needs_kernel: false,
             in_c12: true,
+            in_c13: true,
         },
     ]
 }
